@@ -101,6 +101,18 @@ CLAIMS["C15"] = (
     TRUSTED + "MSL library names are emitted qualified (metal::, helper::).",
     "DESIGN.md §4 C15")
 
+CLAIMS["C05"] = (
+    "static analysis: THIR value-origin slices from metadata fields and annotation printers to the single source "
+    "api_slot; sibling-table agreement (hlsl vs msl descriptor tables, compile.rs vs pipeline.rs entry-point names); "
+    "provider agreement between metadata names and emitted declaration names",
+    "Decides that slot, group, count, type, bindless flag, stage, thread-group size and entry-point name in the "
+    "metadata are copies of the same IR fields the annotation printers print (any arithmetic or different provider is "
+    "reported), that a metadata entry is registered exactly under the `if let Some(api_slot)` guard, that both "
+    "exporters use the same 21-entry descriptor-type table, and that MSL's used flag is derived from every stage's "
+    "required globals. Does not count run-time lists.",
+    TRUSTED,
+    "DESIGN.md §4 C05")
+
 NOT_YET = "rules for this property are not built yet in this round (see DESIGN.md §10 build order); no claim is made"
 
 
